@@ -70,7 +70,7 @@ fn gen_output(rng: &mut Rng, must_match_early: bool) -> Vec<u8> {
 
 pub fn gen_workload(sub: u64) -> Workload {
     let mut rng = Rng::new(sub);
-    let kind = match rng.below(15) {
+    let kind = match rng.below(16) {
         0..=3 => "pre",
         4 => "pre-glob-negated",
         5..=6 => "pre-glob",
@@ -82,6 +82,8 @@ pub fn gen_workload(sub: u64) -> Workload {
         // --pre and -z the one given last wins
         12 => "zstub+pre-glob-only",
         13 => "zstub-after-pre",
+        // an empty --pre value only switches the preprocessor off, not -z
+        14 => "zstub-then-empty-pre",
         _ => "pre-after-z",
     }
     .to_string();
@@ -103,15 +105,15 @@ pub fn gen_workload(sub: u64) -> Workload {
     for i in 0..nf {
         let dir = if rng.chance(1, 3) { "sub/" } else { "" };
         let through_child = match kind.as_str() {
-            "pre-glob" | "pre-glob-negated" | "zstub" | "zreal" | "zstub+pre-glob-only" | "zstub-after-pre" => rng.chance(2, 3),
+            "pre-glob" | "pre-glob-negated" | "zstub" | "zreal" | "zstub+pre-glob-only" | "zstub-after-pre" | "zstub-then-empty-pre" => rng.chance(2, 3),
             _ => true,
         };
         let ext = match (kind.as_str(), through_child) {
             ("pre-glob", true) | ("pre-glob-negated", true) => "sel",
-            ("zstub", true) | ("zstub+pre-glob-only", true) | ("zstub-after-pre", true) => ["gz", "bz2", "xz"][rng.below(3)],
+            ("zstub", true) | ("zstub+pre-glob-only", true) | ("zstub-after-pre", true) | ("zstub-then-empty-pre", true) => ["gz", "bz2", "xz"][rng.below(3)],
             ("zreal", true) => {
                 // only tools that exist on this machine (gzip is part of the base system)
-                let have: Vec<&str> = ["gz", "bz2", "xz"].into_iter().filter(|e| std::path::Path::new(real_tool(e).1).exists()).collect();
+                let have: Vec<&str> = ["gz", "bz2", "xz", "lz4", "zst", "lzma"].into_iter().filter(|e| std::path::Path::new(real_tool(e).1).exists()).collect();
                 if have.is_empty() {
                     "txt"
                 } else {
@@ -189,7 +191,18 @@ fn real_tool(ext: &str) -> (&'static str, &'static str) {
     match ext {
         "gz" => ("gzip", "/usr/bin/gzip"),
         "bz2" => ("bzip2", "/root/miniconda/bin/bzip2"),
-        _ => ("xz", "/root/miniconda/bin/xz"),
+        "lz4" => ("lz4", "/root/miniconda/bin/lz4"),
+        "zst" => ("zstd", "/root/miniconda/bin/zstd"),
+        _ => ("xz", "/root/miniconda/bin/xz"), // .xz and .lzma
+    }
+}
+
+/// Extra arguments the real tool needs for this format (before -c / -d -c).
+fn real_tool_args(ext: &str) -> &'static [&'static str] {
+    match ext {
+        "lzma" => &["--format=lzma"],
+        "zst" | "lz4" => &["-q"],
+        _ => &[],
     }
 }
 
@@ -216,14 +229,14 @@ pub fn run_workload(sub: u64, acc: &mut Acc, ctx: &Ctx, _thorough: bool) {
             let (_, tool) = real_tool(&ext);
             let plain = scratch.join("plain.tmp");
             std::fs::write(&plain, &f.output).unwrap();
-            let out = std::process::Command::new(tool).arg("-c").arg(&plain).output().unwrap_or_else(|e| harness_error(&format!("{tool}: {e}")));
+            let out = std::process::Command::new(tool).args(real_tool_args(&ext)).arg("-c").arg(&plain).output().unwrap_or_else(|e| harness_error(&format!("{tool}: {e}")));
             let mut archive = out.stdout;
             if rng.chance(1, 3) && archive.len() > 12 {
                 let cut = 8 + rng.below(archive.len() - 8);
                 archive.truncate(cut);
                 std::fs::write(&rp, &archive).unwrap();
                 // what does the real tool produce for the damaged archive?
-                let d = std::process::Command::new(tool).args(["-d", "-c"]).arg(&rp).output().unwrap();
+                let d = std::process::Command::new(tool).args(real_tool_args(&ext)).args(["-d", "-c"]).arg(&rp).output().unwrap();
                 f.output = d.stdout;
                 let code = d.status.code().unwrap_or(-1);
                 if code != 0 {
@@ -269,7 +282,7 @@ pub fn run_workload(sub: u64, acc: &mut Acc, ctx: &Ctx, _thorough: bool) {
             path_prefix = Some("/root/miniconda/bin".into());
             args.push("-z".into());
         }
-        "zstub+pre-glob-only" | "zstub-after-pre" | "pre-after-z" => {
+        "zstub+pre-glob-only" | "zstub-after-pre" | "pre-after-z" | "zstub-then-empty-pre" => {
             let bin = scratch.join("bin");
             let _ = std::fs::create_dir_all(&bin);
             for t in ["gzip", "bzip2", "xz"] {
@@ -280,6 +293,13 @@ pub fn run_workload(sub: u64, acc: &mut Acc, ctx: &Ctx, _thorough: bool) {
             match w.kind.as_str() {
                 "zstub+pre-glob-only" => args.extend(["-z".into(), "--pre-glob".into(), "*.gz".into()]),
                 "zstub-after-pre" => args.extend(["--pre".into(), "/nonexistent/never-used".into(), "--pre-glob".into(), "*.gz".into(), "-z".into()]),
+                "zstub-then-empty-pre" => {
+                    if sub % 2 == 0 {
+                        args.extend(["-z".into(), "--pre=".into()]);
+                    } else {
+                        args.extend(["-z".into(), "--pre".into(), "".into()]);
+                    }
+                }
                 _ => args.extend(["-z".into(), "--pre".into(), STUB.into()]),
             }
         }
